@@ -56,7 +56,21 @@ func c02GenXW(r *Rng) xwScn {
 		s.Objs = append(s.Objs, o)
 		if r.Chance(3, 4) {
 			s.Refs = append(s.Refs, xwRef{Kind: o.Kind, Name: o.Name})
+			// the foreign object exists but the informer cache of this reconcile has not seen it: the
+			// cached Get of ObserveComposedResources / AssociateTemplates / Apply answers NotFound
+			if r.Chance(1, 2) && len(s.Rounds) > 0 {
+				k := 0
+				if r.Chance(1, 3) {
+					k = r.Intn(len(s.Rounds))
+				}
+				s.Rounds[k].MissSel = nil
+				s.Rounds[k].Miss = append(s.Rounds[k].Miss, xwRef{Kind: o.Kind, Name: o.Name})
+			}
 		}
+	}
+	for i := range s.Rounds {
+		// (selectors are resolved against random names by C01's own driver only)
+		s.Rounds[i].MissSel = nil
 	}
 	return s
 }
@@ -88,7 +102,11 @@ func c02RunXW(s *xwScn) (c01Obs, []Mon) {
 			if f[0] == "get" || strings.HasPrefix(f[1], "XThing/") {
 				continue
 			}
-			applied := strings.Contains(c, " ok>") && !strings.HasSuffix(c, ">notFound") && !strings.HasSuffix(c, ">invalid") || strings.Contains(c, " crashAfter>")
+			// answered without an error, or the process died after the API server took the call (a
+			// Create addressed to an object that exists is answered AlreadyExists: never applied)
+			applied := strings.Contains(c, " ok>") && !strings.HasSuffix(c, ">notFound") && !strings.HasSuffix(c, ">invalid") &&
+				!strings.HasSuffix(c, ">alreadyExists") && !strings.HasSuffix(c, ">conflict") ||
+				strings.Contains(c, " crashAfter>") && f[0] != "create"
 			for k := range want {
 				parts := strings.SplitN(k, "/", 3) // Kind.group / ns / name
 				pgk := schema.ParseGroupKind(parts[0])
@@ -150,6 +168,24 @@ func init() {
 					obs, mons := c02CrdRun(s)
 					c.Emit(c02Scn{"crd", s}, obs, c02Remap(mons), "corpus")
 				}
+			case "unpub":
+				var s c02UnpubScn
+				if json.Unmarshal(w.Scn, &s) == nil {
+					obs, mons := c02UnpubRun(s)
+					c.Emit(c02Scn{"unpub", s}, obs, mons, "corpus")
+				}
+			case "two":
+				var s c02TwoScn
+				if json.Unmarshal(w.Scn, &s) == nil && len(s.XRs) == 2 {
+					obs, mons := c02TwoRun(s)
+					c.Emit(c02Scn{"two", s}, obs, mons, "corpus")
+				}
+			case "xwE":
+				var s c02XwEScn
+				if json.Unmarshal(w.Scn, &s) == nil {
+					obs, mons, _ := c02RunXwE(&s)
+					c.Emit(c02Scn{"xwE", s}, obs, mons, "corpus")
+				}
 			}
 		}
 		for i := 0; i < c.N; i++ {
@@ -187,7 +223,19 @@ func init() {
 				ds := c02CrdGen(c.Rng)
 				do, dm := c02CrdRun(ds)
 				c.Emit(c02Scn{"crd", ds}, do, c02Remap(dm), "crd/"+c02CrdCls(ds, do))
-			case 0, 1:
+			case 1:
+				// a third party takes a composed resource over between two calls of one reconcile
+				as := c02XwEGen(c.Rng)
+				aobs, amons, acls := c02RunXwE(&as)
+				c.Emit(c02Scn{"xwE", as}, aobs, amons, fmt.Sprintf("adopt/%s/%s", as.Xw.Mode, acls))
+			case 0:
+				if (i/8)%3 == 1 {
+					// two XRs, explicit composed-resource names: the server-side-apply guard
+					ts := c02TwoGen(c.Rng)
+					tobs, tmons := c02TwoRun(ts)
+					c.Emit(c02Scn{"two", ts}, tobs, tmons, "twoxr/"+c02TwoCls(ts, tobs))
+					continue
+				}
 				s := c02GenXW(c.Rng)
 				obs, mons := c02RunXW(&s)
 				nf := 0
@@ -198,6 +246,13 @@ func init() {
 				}
 				c.Emit(c02Scn{"C01", s}, obs, mons, fmt.Sprintf("composer/%s/foreign=%d/refs=%d", s.Mode, nf, len(s.Refs)))
 			case 2:
+				if (i/8)%3 == 1 {
+					// the claim's connection secret on the delete path of the claim reconciler
+					us := c02UnpubGen(c.Rng)
+					uobs, umons := c02UnpubRun(us)
+					c.Emit(c02Scn{"unpub", us}, uobs, umons, c02UnpubCls(us))
+					continue
+				}
 				s := c02GenSecret(c.Rng)
 				obs, mons := c09Run(s)
 				c.Emit(c02Scn{"C09", s}, obs, c02Remap(mons), fmt.Sprintf("secret/%s/dest=%s:%v", s.Op, s.Dest.Ctrl, s.Dest.Conn))
@@ -221,7 +276,7 @@ func c02Remap(mons []Mon) []Mon {
 			out = append(out, Mon{Sig: "C02:rbac-" + m.Sig[4:], Why: m.Why})
 		case "C06:hijack":
 			out = append(out, Mon{Sig: "C02:claim-hijack", Why: m.Why})
-		case "C02:crd-foreign-modified", "C02:crd-foreign-deleted", "C02:crd-foreign-adopted", "C02:crd-write-to-foreign", "C02:crd-conflict-not-surfaced", "C02:panic":
+		case "C02:crd-foreign-modified", "C02:crd-foreign-deleted", "C02:crd-foreign-adopted", "C02:crd-write-to-foreign", "C02:crd-conflict-not-surfaced", "C02:crd-deleted-after-taken-over-since-read", "C02:panic":
 			out = append(out, m)
 		case "C09:panic", "C14:panic", "C16:panic", "C18:panic", "C06:panic":
 			out = append(out, Mon{Sig: "C02:panic", Why: m.Why})
